@@ -61,6 +61,7 @@ def prep (w1 : World) (t : HTag) : World :=
   else w1
 
 structure Carry (X : World → Prop) : Prop where
+  fail : ∀ {w : World} (m : String), X w → X (w.fail m)
   emit : ∀ {w : World} (l : String), X w → X (w.emit l)
   adv : ∀ {w : World} (p : Pid) (n : Nat), X w → X (w.modProc p fun y => { y with pc := n })
   exec : ∀ {w : World} {p : Pid} (c : Cmd), X w → p < w.procs.size → S3.CmdOk c → DurOk c → VarsOk c → X (execCmd w p c).1
@@ -71,7 +72,8 @@ structure Carry (X : World → Prop) : Prop where
   prep : ∀ {w : World} {t : HTag} {ev' : EvQ}, X w → executeNext w.ev = some (t, ev') → X (prep (S3.takeNext w t ev') t)
 
 theorem Carry.and {X Y : World → Prop} (hX : Carry X) (hY : Carry Y) : Carry (fun w => X w ∧ Y w) := by
-  refine ⟨?_, ?_, ?_, ?_, ?_, ?_, ?_⟩
+  refine ⟨?_, ?_, ?_, ?_, ?_, ?_, ?_, ?_⟩
+  · intro w m h; exact ⟨hX.fail m h.1, hY.fail m h.2⟩
   · intro w l h; exact ⟨hX.emit l h.1, hY.emit l h.2⟩
   · intro w p n h; exact ⟨hX.adv p n h.1, hY.adv p n h.2⟩
   · intro w p c h hp h1 h2 h3; exact ⟨hX.exec c h.1 hp h1 h2 h3, hY.exec c h.2 hp h1 h2 h3⟩
@@ -96,7 +98,8 @@ theorem prep_pqs (w1 : World) (t : HTag) : (prep w1 t).pqs = w1.pqs := by
   all_goals simp
 
 theorem PQS.carry : Carry PQS := by
-  refine ⟨?_, ?_, ?_, ?_, ?_, ?_, ?_⟩
+  refine ⟨?_, ?_, ?_, ?_, ?_, ?_, ?_, ?_⟩
+  · intro w m h; exact h.of_eq (by simp)
   · intro w l h; exact h.of_eq rfl
   · intro w p n h; exact h.of_eq rfl
   · intro w p c h _ _ _ _; exact h.execCmd p c
@@ -234,5 +237,157 @@ theorem nf_resumeProc {X : World → Prop} (hX : Carry X) (hF : Facts X) (w : Wo
     | skip => exact SafeR.nf hR
     | blocked => exact hR
     | ended => exact hR
+
+
+/-! ### a carried family is preserved by `dispatch` (for valid programs) -/
+
+theorem Carry.runScript {X : World → Prop} (hX : Carry X) : ∀ (fuel : Nat) (w : World) (p : Pid),
+    X w → ProgOk w → X (Sim.runScript fuel w p) := by
+  intro fuel
+  induction fuel with
+  | zero => intro w p hx _; exact hX.fail _ hx
+  | succ fuel ih =>
+    intro w p hx hprog
+    simp only [Sim.runScript]
+    split
+    · exact hX.finish p 0 false (hX.emit _ hx)
+    · rename_i c text hsc
+      have hlt : p < w.procs.size := by
+        rcases Nat.lt_or_ge p w.procs.size with h' | h'
+        · exact h'
+        · rw [script_none_of_oob h'] at hsc; cases hsc
+      obtain ⟨hok, hd, hv, _⟩ := hprog p _ c text hsc
+      have hx1 := hX.exec c (hX.emit s!"c {p} {(w.proc p).pc} {w.now} {text}" hx) (p := p) hlt hok hd hv
+      have hst : Stat w (execCmd (w.emit s!"c {p} {(w.proc p).pc} {w.now} {text}") p c).1 := by
+        have h0 := Stat.refl w; stat
+      rcases hres : execCmd (w.emit s!"c {p} {(w.proc p).pc} {w.now} {text}") p c with ⟨w1, out⟩
+      rw [hres] at hx1 hst
+      cases out with
+      | ret v extra =>
+        dsimp only
+        exact ih _ p (hX.adv p _ (hX.emit _ hx1)) (hprog.ofStat (by have h0 := hst; stat))
+      | skip =>
+        dsimp only
+        exact ih _ p (hX.adv p _ (hX.emit _ hx1)) (hprog.ofStat (by have h0 := hst; stat))
+      | blocked => exact hx1
+      | ended =>
+        dsimp only
+        split <;> exact hX.emit _ hx1
+
+theorem Carry.resumeProc {X : World → Prop} (hX : Carry X) (w : World) (p : Pid) (sig : Int) (hx : X w) (hprog : ProgOk w) :
+    X (Sim.resumeProc w p sig) := by
+  simp only [Sim.resumeProc]
+  split
+  · exact hX.fail _ hx
+  · split
+    · exact hX.fail _ hx
+    · rename_i f hbf
+      have hlt : p < w.procs.size := by
+        rcases Nat.lt_or_ge p w.procs.size with h' | h'
+        · exact h'
+        · have : (w.proc p).blocked = none := by rw [S3.proc_oob w h']
+          rw [this] at hbf; cases hbf
+      have hx1 := hX.resume sig hx hbf hlt
+      have hst : Stat w (resumeFrame (w.modProc p fun y => { y with blocked := none }) p f sig).1 := by
+        have h0 := Stat.refl w; stat
+      rcases hres : resumeFrame (w.modProc p fun y => { y with blocked := none }) p f sig with ⟨w1, out⟩
+      rw [hres] at hx1 hst
+      cases out with
+      | ret v extra =>
+        dsimp only
+        exact hX.runScript _ _ p (hX.adv p _ (hX.emit _ hx1)) (hprog.ofStat (by have h0 := hst; stat))
+      | skip => exact hx1
+      | blocked => exact hx1
+      | ended => exact hx1
+
+theorem progOk_prep {w1 : World} (h : ProgOk w1) (t : HTag) : ProgOk (prep w1 t) := by
+  refine h.ofStat ?_
+  unfold S4.prep
+  have h0 := Stat.refl w1
+  repeat' split
+  all_goals stat
+
+theorem Carry.dispatch {X : World → Prop} (hX : Carry X) {w w' : World} (hx : X w) (hprog : ProgOk w)
+    (hd : dispatch w = some w') : X w' := by
+  rw [S3.dispatch_eq] at hd
+  split at hd
+  · cases hd
+  · rename_i t ev' hn
+    simp only [Option.some.injEq] at hd
+    subst hd
+    have hxW : X (S4.prep (S3.takeNext w t ev') t) := hX.prep hx hn
+    have hprogT : ProgOk (S3.takeNext w t ev') := hprog.ofStat (Stat.takeNext w t ev')
+    have hprogW := progOk_prep hprogT t
+    generalize S3.takeNext w t ev' = wT at *
+    simp only [S3.dispatchBody]
+    generalize hpdef : t.item.b - 1 = p at *
+    by_cases ha : t.item.a = aStart
+    · rw [if_pos ha]
+      have hpw : S4.prep wT t = wT := by
+        unfold S4.prep
+        simp [ha, aStart, aTime, aProc, aEvent, aCond, aIntr]
+      rw [hpw] at hxW
+      split
+      · exact hX.fail _ hxW
+      · exact hX.runScript _ _ p (hX.start p hxW) (hprogT.ofStat (by have h0 := Stat.refl wT; stat))
+    rw [if_neg ha]
+    by_cases hat : t.item.a = aTime
+    · rw [if_pos hat]
+      have hpw : S4.prep wT t = (removeAwait wT p (.time t.key)).1 := by
+        unfold S4.prep; rw [if_pos hat, hpdef]
+      rw [hpw] at hxW hprogW
+      exact hX.resumeProc _ p _ hxW hprogW
+    rw [if_neg hat]
+    by_cases hap : t.item.a = aProc
+    · rw [if_pos hap]
+      have hpw : S4.prep wT t = (removeAwaitKind wT p isProcA).1 := by
+        unfold S4.prep; rw [if_neg hat, if_pos hap, hpdef]
+      rw [hpw] at hxW hprogW
+      split
+      · exact hX.resumeProc _ p _ hxW hprogW
+      · exact hxW
+    rw [if_neg hap]
+    by_cases hae : t.item.a = aEvent
+    · rw [if_pos hae]
+      have hpw : S4.prep wT t = (removeAwaitKind wT p isEventA).1 := by
+        unfold S4.prep; rw [if_neg hat, if_neg hap, if_pos hae, hpdef]
+      rw [hpw] at hxW hprogW
+      split
+      · exact hX.resumeProc _ p _ hxW hprogW
+      · exact hxW
+    rw [if_neg hae]
+    by_cases har : t.item.a = aRes ∨ t.item.a = aPreempt
+    · rw [if_pos har]
+      have hpw : S4.prep wT t = wT := by
+        unfold S4.prep
+        rw [if_neg hat, if_neg hap, if_neg hae]
+        rcases har with h | h <;> simp [h, aRes, aPreempt, aCond, aIntr]
+      rw [hpw] at hxW hprogW
+      split
+      · exact hX.resumeProc _ p _ hxW hprogW
+      · exact hxW
+    rw [if_neg har]
+    by_cases hac : t.item.a = aCond
+    · rw [if_pos hac]
+      have hpw : S4.prep wT t = (removeAwaitKind wT p isGuardA).1 := by
+        unfold S4.prep; rw [if_neg hat, if_neg hap, if_neg hae, if_pos hac, hpdef]
+      rw [hpw] at hxW hprogW
+      split
+      · exact hX.resumeProc _ p _ hxW hprogW
+      · exact hxW
+    rw [if_neg hac]
+    by_cases hai : t.item.a = aIntr
+    · rw [if_pos hai]
+      have hpw : S4.prep wT t = cancelAwaiteds wT p := by
+        unfold S4.prep; rw [if_neg hat, if_neg hap, if_neg hae, if_neg hac, if_pos hai, hpdef]
+      rw [hpw] at hxW hprogW
+      exact hX.resumeProc _ p _ hxW hprogW
+    rw [if_neg hai]
+    have hpw : S4.prep wT t = wT := by
+      unfold S4.prep; rw [if_neg hat, if_neg hap, if_neg hae, if_neg hac, if_neg hai]
+    rw [hpw] at hxW hprogW
+    split
+    · exact hX.resumeProc _ p _ hxW hprogW
+    · exact hxW
 
 end CimbaModel.Sim.S4
